@@ -1,4 +1,4 @@
-import SSV.Proofs.ClientGroupsMain
+import SSV.Proofs.ClientGroupsSched
 /-
 C19 — Client groups pick clients as their policy says.
 
@@ -251,6 +251,117 @@ theorem always_member (p : Policy) (timeout : Nat) {n : Nat} (hn : 0 < n) (hist 
 
 example : (0 : Nat) < 1 := by decide
 
+/-! ## the "nobody scores" fallback -/
+
+/-- the scan starts from a fresh `bestIndex = 0` every round: the previous selection has no influence on the next -/
+theorem selection_ignores_previous (p : Policy) (timeout : Nat) (st : State) (x : Nat) :
+    (finish p timeout { st with sel := x }).sel = (finish p timeout st).sel := rfl
+
+/-- from ANY state (any previous selection): if after a round no client's figure beats the sentinel — no client
+    has a success in the retained history / no client's mean (worst) latency is below the timeout — the group
+    serves the FIRST client in configuration order. -/
+theorem nobody_beats_sentinel_first_client (p : Policy) (timeout : Nat) (st : State)
+    (h : ∀ ring ∈ st.rings, cmpTest (cmpOf p) (score p ring) (valOf (initBestOf p) timeout) = false) :
+    (finish p timeout st).sel = 0 := by
+  simp only [finish]
+  apply bestIndex_sentinel
+  intro x hx
+  obtain ⟨ring, hr, rfl⟩ := List.mem_map.mp hx
+  exact h ring hr
+
+example : ∀ ring ∈ ({ rings := [[0, 0], [0, 0]], count := 5, sel := 1 } : State).rings,
+    cmpTest (cmpOf .avail) (score .avail ring) (valOf (initBestOf .avail) 7) = false := by decide
+
+/-- the all-fail history, of any length ≥ 1, for every policy and group size: the first client is served
+    (in particular after the group had been serving another client: `hist` may be the tail of anything, see
+    `selection_ignores_previous`; and for more than 32/64 rounds, when nobody beats the sentinel any more). -/
+theorem all_fail_first_client (p : Policy) {n : Nat} (hn : 0 < n) (timeout : Nat) (hist : History n) (hne : hist ≠ [])
+    (hfail : ∀ f ∈ hist, ∀ i : Fin n, f i = none) :
+    (run p timeout (init p n) (hist.map List.ofFn)).sel = 0 := by
+  have hcol : ∀ i j : Fin n, column hist i = column hist j := by
+    intro i j
+    unfold column
+    apply List.map_congr_left
+    intro f hf
+    rw [hfail f hf i, hfail f hf j]
+  have hlat : ∀ f ∈ hist, ∀ (i : Fin n) (d : Nat), f i = some d → d ≤ timeout := by
+    intro f hf i d hd
+    rw [hfail f hf i] at hd
+    exact absurd hd (by simp)
+  cases p with
+  | avail =>
+    obtain ⟨h, _, h2⟩ := best_is_argmax_first_availability hn timeout hist hne
+    apply Nat.eq_zero_of_not_pos
+    intro hpos
+    have := h2 ⟨0, hn⟩ hpos
+    rw [hcol ⟨0, hn⟩ ⟨_, h⟩] at this
+    omega
+  | lat =>
+    obtain ⟨h, _, h2⟩ := best_is_argmax_first_latency hn timeout hist hne hlat
+    apply Nat.eq_zero_of_not_pos
+    intro hpos
+    have := h2 ⟨0, hn⟩ hpos
+    rw [hcol ⟨0, hn⟩ ⟨_, h⟩] at this
+    omega
+  | minmax =>
+    obtain ⟨h, _, h2⟩ := best_is_argmax_first_minmax hn timeout hist hne hlat
+    apply Nat.eq_zero_of_not_pos
+    intro hpos
+    have := h2 ⟨0, hn⟩ hpos
+    rw [hcol ⟨0, hn⟩ ⟨_, h⟩] at this
+    omega
+
+example : ∃ hist : History 3, hist ≠ [] ∧ ∀ f ∈ hist, ∀ i : Fin 3, f i = none :=
+  ⟨[fun _ => none, fun _ => none], by simp, by intro f hf i; simp at hf; rcases hf with rfl | rfl <;> rfl⟩
+
+/-! ## scheduling of the probes inside a round -/
+
+/-- the effective worker count is between 1 and the group size, whatever is configured (0 / negative = default) -/
+theorem concurrency_at_least_one (cfg : Int) (n : Nat) (hn : 0 < n) :
+    1 ≤ effConcurrency cfg n ∧ effConcurrency cfg n ≤ n :=
+  effConcurrency_bounds cfg n hn
+
+example : effConcurrency 0 3 = 3 ∧ effConcurrency (-4) 40 = 32 ∧ effConcurrency 1 5 = 1 := by decide
+
+/-- `probe_outcome_own_script`: with at least one worker — any number of workers, any instants at which they become
+    free, i.e. whatever was queued before a probe and however long that took — what each client's job records is
+    determined by that client's own behaviour relative to ITS OWN start: a usable answer less than `timeout` after
+    the probe started is a success with exactly that latency (queueing time not included), anything else a failure.
+    Rests on the regenerated facts that both `Run` bodies derive the deadline, and read the latency clock, on the
+    worker after the job was received. -/
+theorem probe_outcome_own_script (p : Policy) (timeout t0 : Nat) (scripts : List Script) (free : List Nat)
+    (hfree : free ≠ []) :
+    (dispatch p timeout t0 scripts free).map (·.outcome) = scripts.map (scriptOutcome timeout) :=
+  dispatch_outcomes p timeout t0 scripts free hfree
+
+example : ([0, 0] : List Nat) ≠ [] := by decide
+
+/-- a whole round on the clock is the big-step round on the clients' own outcomes, for every worker count ≥ 1 and
+    every round start; together with `round_any_job_order` / `any_job_order_whole_history`: for every completion order. -/
+theorem timed_round_schedule_independent (p : Policy) (timeout c t0 : Nat) (hc : 1 ≤ c) (st : State) (scripts : List Script) :
+    timedRound p timeout c t0 st scripts = round p timeout st (scripts.map (scriptOutcome timeout)) :=
+  timedRound_eq p timeout c t0 hc st scripts
+
+example : (1 : Nat) ≤ 1 := by decide
+
+/-- every job starts at or after the round start and ends within `timeout` of its own start -/
+theorem probe_timing (timeout t0 : Nat) (scripts : List Script) (free : List Nat) (hfree : free ≠ [])
+    (hge : ∀ f ∈ free, t0 ≤ f) :
+    ∀ j ∈ dispatchWith .jobStart .jobStart timeout t0 scripts free,
+      t0 ≤ j.start ∧ j.start ≤ j.finish ∧ j.finish ≤ j.start + timeout :=
+  dispatchWith_jobStart_timing timeout t0 scripts free hfree hge
+
+example : ∀ f ∈ ([3, 3] : List Nat), 3 ≤ f := by decide
+
+/-- queued probes start late (one worker, two clients, timeout 5: client 0 fails after 4, client 1 answers after 2):
+    client 1 starts at 4, still succeeds with latency 2 — and would NOT if the deadline were counted from the round
+    start (the model with `Base.roundStart`), which is why the theorems above need the regenerated bases. -/
+theorem queued_probe_witness :
+    (dispatchWith .jobStart .jobStart 5 0 [⟨some 4, false⟩, ⟨some 2, true⟩] [0]).map (fun j => (j.start, j.outcome))
+      = [(0, none), (4, some 2)] ∧
+    (dispatchWith .roundStart .jobStart 5 0 [⟨some 4, false⟩, ⟨some 2, true⟩] [0]).map (fun j => (j.start, j.outcome))
+      = [(0, none), (4, none)] := by decide
+
 /-! ## side conditions on the regenerated constants -/
 
 /-- with the default timeout the `int64` sum of one latency ring cannot overflow -/
@@ -280,5 +391,13 @@ end SSV.C19
 #print axioms SSV.C19.round_any_job_order
 #print axioms SSV.C19.any_job_order_whole_history
 #print axioms SSV.C19.always_member
+#print axioms SSV.C19.selection_ignores_previous
+#print axioms SSV.C19.nobody_beats_sentinel_first_client
+#print axioms SSV.C19.all_fail_first_client
+#print axioms SSV.C19.concurrency_at_least_one
+#print axioms SSV.C19.probe_outcome_own_script
+#print axioms SSV.C19.timed_round_schedule_independent
+#print axioms SSV.C19.probe_timing
+#print axioms SSV.C19.queued_probe_witness
 #print axioms SSV.C19.default_sum_no_overflow
 #print axioms SSV.C19.defaults_as_documented
